@@ -6,7 +6,7 @@ from ..model import Model, entry_diffs
 def run(ctx):
     rng = ctx.rng
     modes = drv.QUICK_MODES if ctx.quick else drv.ALL_MODES
-    nh = 120 if ctx.quick else 4000
+    nh = 500 if ctx.quick else 8000
     ctx.rule = ("seeded histories biased to many records per bucket, tombstones first/middle/last, re-insertion, "
                 "1-300 keys, writes through sync and async entry points with metadata/raw metadata/time options; "
                 "after the history (and at random intermediate points) list_sync is compared as a multiset with "
